@@ -468,6 +468,19 @@ static std::string run(const std::string &line)
       for (auto &v : r.vector) s += " " + std::to_string(v.index) + " " + hx(v.distance);
       return s;
     }
+  if (cmd == "kd1")
+    {
+      // kd1 n x y ... px py  -> index and distance of KDTree::find_closest_point (the single-answer search)
+      size_t n; in >> n;
+      std::vector<KDTree::Node> nodes;
+      for (size_t i = 0; i < n; ++i) { double x = rd(in), y = rd(in); nodes.emplace_back(i, x, y); }
+      KDTree::KDTree tree(nodes);
+      tree.create_tree(0, nodes.size()-1, false);
+      double px = rd(in), py = rd(in);
+      KDTree::IndexDistance r = tree.find_closest_point(Point<2>(px, py, cartesian));
+      const auto &nd = tree.get_nodes()[r.index];
+      return "ok " + hx(static_cast<double>(nd.index)) + " " + hx(r.distance) + " " + hx(nd.x) + " " + hx(nd.y);
+    }
   return "unknown-command";
 }
 
